@@ -365,7 +365,11 @@ class Events:
             `get_latest` will not work.
         '''
         self.events = pd.DataFrame(events, columns=['event', 'sample'])
-        self.events['ts'] = self.events['sample'] / fs
+        if fs is None:
+            # Without a sampling rate only the sample numbers are known
+            self.events['ts'] = np.nan
+        else:
+            self.events['ts'] = self.events['sample'] / fs
         self.start = start
         self.end = end
         self.fs = fs
@@ -1108,10 +1112,14 @@ def edges(min_samples, target, initial_state=False, fs='auto', detect='both'):
     prior_samples = np.tile(initial_state, min_samples).astype('bool')
 
     if isinstance(new_samples, PipelineData):
+        # One-dimensional data carries a single label, (1, n) data a list
+        channel = new_samples.channel
+        if isinstance(channel, list):
+            channel = channel[0]
         prior_samples = PipelineData(prior_samples,
                                      s0=new_samples.s0-min_samples,
                                      fs=new_samples.fs,
-                                     channel=new_samples.channel[0],
+                                     channel=channel,
                                      metadata=new_samples.metadata)
         s0 = prior_samples.s0
         fs = prior_samples.fs
